@@ -2965,3 +2965,67 @@ def r03_14(ctx):
                     "buffer of the announced size (split_at_mut panics)", body=b, bb=bad[0][0], path=bad[0][1])
         else:
             ctx.ok(('process_sixlowpan_fragment', 'datagram_size >= 40'), sample=dict(fn='process_sixlowpan_fragment', guard='datagram_size() >= 40'))
+
+
+@rule('R14.11', ['C14'], floor=2, clause='random access into a ring buffer answers the empty slice for an offset beyond the free / allocated space whatever its size: in get_unallocated / get_allocated every computation on the caller-supplied offset (the sum with the fill level, the index computation) comes after the test that bounds the offset')
+def r14_11(ctx):
+    F = ctx.F
+    RB = 'storage::ring_buffer::RingBuffer'
+    for nm in ('get_unallocated', 'get_allocated'):
+        b = ctx.method(RB, nm)
+        sites = []
+        for bi, bl in enumerate(b.blocks):
+            if bl['cl']:
+                continue
+            for si, s in enumerate(bl['s']):
+                if s[0] == 'a' and s[2][0] == 'bin' and s[2][1] in ('Add', 'AddWithOverflow', 'Mul', 'MulWithOverflow'):
+                    ops = [strip(simplify(F.origin.operand(b, o, bi, si))) for o in s[2][2:4]]
+                    if any('A:2' in leafs(o) for o in ops):
+                        sites.append(bi)
+        for x in b.calls():
+            if (b.callee_name(x[1]) or '').endswith('::get_idx'):
+                args = [strip(simplify(F.origin.operand(b, a, x[0], len(b.blocks[x[0]]['s'])))) for a in x[2]]
+                if any('A:2' in leafs(a) for a in args[1:]):
+                    sites.append(x[0])
+        ctx.need(sites, f"arithmetic on the offset argument of RingBuffer::{nm}")
+        bounded = lambda f: f[0] == 'rel' and f[1] in ('Le', 'Lt') and leafs(f[2]) == {'A:2'} and 'A:2' not in leafs(f[3])
+        bad = unguarded(F, b, sorted(set(sites)), bounded)
+        if bad:
+            ctx.bad(f"RingBuffer::{nm}|offset-arithmetic-before-bound", f"RingBuffer::{nm} adds the caller-supplied offset to the fill level / read position before it has tested the offset against "
+                    "the available space: an offset close to usize::MAX overflows (panic with overflow checks, a wrapped index without) instead of answering the empty slice", body=b, bb=bad[0][0], path=bad[0][1])
+        else:
+            ctx.ok((nm, 'offset bounded first'), sample=dict(fn=f'RingBuffer::{nm}', first='offset <= window()/len()', then='index arithmetic'))
+
+
+@rule('R02.15', ['C02', 'C03', 'C13'], floor=1, clause='the zero-window-probe timer does not outlive the data it probes for: in process(), once the transmit buffer is found empty, every continuation either finds that the timer is not the probe timer or replaces it (an expired probe timer with nothing to probe makes dispatch transmit at every call: in FIN-WAIT-2 Interface::poll would never return)')
+def r02_15(ctx):
+    F = ctx.F
+    b = ctx.method(SOCK, 'process')
+    TIMER = 'socket::tcp::Timer'
+
+    def txempty(truth):
+        def p(f):
+            if f[0] == 'bool' and f[2] is truth and is_call(strip(f[1]), '::is_empty') and any(l.endswith('.tx_buffer') for l in leafs(f[1])):
+                return True
+            return False
+        return p
+    E = set(guard_edges(F, b, txempty(True)))
+    contra = set(guard_edges(F, b, txempty(False)))
+    ctx.need(E, "a test of tx_buffer.is_empty() in tcp process()")
+    notzwp = set(guard_edges(F, b, lambda f: f[0] == 'bool' and f[2] is False and is_call(strip(f[1]), '::is_zero_window_probe')))
+    ctx.need(notzwp, "is_zero_window_probe() test in tcp process()")
+    setters = {x[0] for x in b.calls() if re.search(r'Timer::set_for_(idle|retransmit|close|fast_retransmit)$', b.callee_name(x[1]) or '')}
+    resets = {x[0] for x in b.calls() if (b.callee_name(x[1]) or '').endswith('::reset') and 'tcp::Socket' in (b.callee_name(x[1]) or '')}
+    worst = None
+    for (bi, tb, lab) in sorted(E):
+        seen = b.reachable(start=tb, cut_edges=contra | notzwp, cut_blocks=setters | resets)
+        rets = [r for r in b.return_blocks() if r in seen and r not in setters]
+        if rets:
+            worst = (bi, rets[0], b.path_to(seen, rets[0]))
+            break
+    if worst:
+        ctx.bad("tcp::process|probe-timer-outlives-data", "process() can return with the zero-window-probe timer still armed although the transmit buffer is empty (everything, possibly the FIN too, "
+                "was acknowledged by a segment that kept the window closed): nothing in dispatch rewinds that timer once it has expired in FIN-WAIT-2, so every dispatch transmits an ACK "
+                "and Interface::poll never returns", body=b, bb=worst[0], path=worst[2])
+    else:
+        ctx.ok(('process', 'probe timer stops with the data'), sample=dict(fn='tcp::Socket::process', when='tx_buffer.is_empty()', then='probe timer replaced (idle / retransmission)'))
